@@ -30,6 +30,10 @@ pub type Job = Box<dyn FnOnce() -> JobOut + Send>;
 pub enum Step {
     Yielded(YieldKind),
     Finished(Result<JobOut, PanicInfo>),
+    /// The granted node went to sleep in the kernel without handing the baton back: it waits for
+    /// a lock of the code under test that a *parked* node holds (a yield inside a critical
+    /// section). The scheduler took the baton back; the node parks itself at its next seam access.
+    Blocked,
 }
 
 #[derive(PartialEq, Eq, Clone, Copy, Debug)]
@@ -38,6 +42,7 @@ enum St {
     Runnable, // has a job, not started
     Yielded,  // inside a job, parked at a scheduling point
     Finished, // result waiting to be collected
+    Blocked,  // inside a job, asleep on a lock held by a parked node; does not own the baton
     Exit,
 }
 
@@ -49,6 +54,7 @@ struct Slot {
     result: Option<Result<JobOut, PanicInfo>>,
     last_yield: YieldKind,
     alive: bool,
+    tid: i32,
 }
 
 struct Shared {
@@ -109,15 +115,57 @@ pub fn yield_point(kind: YieldKind) {
     let ctx = CTX.with(|c| c.borrow().as_ref().map(|c| (c.shared.clone(), c.cv.clone(), c.id)));
     let Some((shared, cv, id)) = ctx else { return };
     let mut g = shared.m.lock().unwrap_or_else(|e| e.into_inner());
-    if g.turn != id {
+    if g.slots[id].st == St::Exit {
+        return;
+    }
+    if g.turn == id {
+        g.slots[id].st = St::Yielded;
+        g.slots[id].last_yield = kind;
+        g.turn = SCHED;
+        shared.sched_cv.notify_one();
+    } else if g.slots[id].st == St::Blocked {
+        // the scheduler took the baton back while this node slept on a lock: park here
+        g.slots[id].st = St::Yielded;
+        g.slots[id].last_yield = kind;
+        shared.sched_cv.notify_one();
+    } else {
         return; // not under the scheduler (e.g. during thread start-up)
     }
+    while g.turn != id {
+        g = cv.wait(g).unwrap_or_else(|e| e.into_inner());
+    }
+}
+
+/// Called at the *entry* of a seam on a node thread: a node that lost the baton while it slept
+/// on a lock must not touch simulated state before it is granted again.
+pub fn reacquire_if_lost() {
+    let ctx = CTX.with(|c| c.borrow().as_ref().map(|c| (c.shared.clone(), c.cv.clone(), c.id)));
+    let Some((shared, cv, id)) = ctx else { return };
+    let mut g = shared.m.lock().unwrap_or_else(|e| e.into_inner());
+    if g.slots[id].st != St::Blocked {
+        return;
+    }
     g.slots[id].st = St::Yielded;
-    g.slots[id].last_yield = kind;
-    g.turn = SCHED;
+    g.slots[id].last_yield = YieldKind::Explicit;
     shared.sched_cv.notify_one();
     while g.turn != id {
         g = cv.wait(g).unwrap_or_else(|e| e.into_inner());
+    }
+}
+
+fn thread_is_sleeping(tid: i32) -> bool {
+    if tid <= 0 {
+        return false;
+    }
+    match std::fs::read_to_string(format!("/proc/self/task/{}/stat", tid)) {
+        Ok(s) => {
+            // "pid (comm) S ..." — the state letter follows the last ')'
+            match s.rfind(')') {
+                Some(i) => s[i + 1..].trim_start().starts_with('S'),
+                None => false,
+            }
+        }
+        Err(_) => false,
     }
 }
 
@@ -127,6 +175,9 @@ pub struct Runtime {
     handles: Vec<Option<JoinHandle<()>>>,
     pub spawned: u64,
     pub steps: u64,
+    /// detect nodes asleep on a lock held by a parked node (only meaningful with preemption)
+    pub detect_blocked: bool,
+    pub blocked_events: u64,
 }
 
 impl Default for Runtime {
@@ -143,6 +194,8 @@ impl Runtime {
             handles: Vec::new(),
             spawned: 0,
             steps: 0,
+            detect_blocked: false,
+            blocked_events: 0,
         }
     }
 
@@ -150,7 +203,7 @@ impl Runtime {
     pub fn add_node(&mut self) -> usize {
         let id = {
             let mut g = self.shared.m.lock().unwrap_or_else(|e| e.into_inner());
-            g.slots.push(Slot { st: St::Idle, job: None, result: None, last_yield: YieldKind::Explicit, alive: true });
+            g.slots.push(Slot { st: St::Idle, job: None, result: None, last_yield: YieldKind::Explicit, alive: true, tid: 0 });
             g.slots.len() - 1
         };
         self.cvs.push(Arc::new(Condvar::new()));
@@ -176,7 +229,7 @@ impl Runtime {
         self.stop_node(id);
         {
             let mut g = self.shared.m.lock().unwrap_or_else(|e| e.into_inner());
-            g.slots[id] = Slot { st: St::Idle, job: None, result: None, last_yield: YieldKind::Explicit, alive: true };
+            g.slots[id] = Slot { st: St::Idle, job: None, result: None, last_yield: YieldKind::Explicit, alive: true, tid: 0 };
         }
         self.spawn_thread(id);
     }
@@ -210,6 +263,39 @@ impl Runtime {
         g.slots.iter().enumerate().filter(|(_, s)| matches!(s.st, St::Runnable | St::Yielded)).map(|(i, _)| i).collect()
     }
 
+    /// Nodes that are inside a job but asleep on a lock (see `Step::Blocked`).
+    pub fn blocked(&self) -> Vec<usize> {
+        let g = self.shared.m.lock().unwrap_or_else(|e| e.into_inner());
+        g.slots.iter().enumerate().filter(|(_, s)| s.st == St::Blocked).map(|(i, _)| i).collect()
+    }
+
+    /// Result of a node that finished while it did not own the baton (it had been `Blocked`).
+    pub fn try_collect(&mut self, id: usize) -> Option<Result<JobOut, PanicInfo>> {
+        let mut g = self.shared.m.lock().unwrap_or_else(|e| e.into_inner());
+        if g.slots[id].st == St::Finished {
+            g.slots[id].st = St::Idle;
+            return g.slots[id].result.take();
+        }
+        None
+    }
+
+    /// Wait (real time, bounded) until some blocked node parks or finishes. False = nothing moved.
+    pub fn wait_for_blocked(&mut self, millis: u64) -> bool {
+        let deadline = std::time::Instant::now() + std::time::Duration::from_millis(millis);
+        let mut g = self.shared.m.lock().unwrap_or_else(|e| e.into_inner());
+        loop {
+            if g.slots.iter().any(|s| matches!(s.st, St::Yielded | St::Finished | St::Runnable)) {
+                return true;
+            }
+            let now = std::time::Instant::now();
+            if now >= deadline {
+                return false;
+            }
+            let (ng, _) = self.shared.sched_cv.wait_timeout(g, std::time::Duration::from_millis(2)).unwrap_or_else(|e| e.into_inner());
+            g = ng;
+        }
+    }
+
     /// Grant the baton to node `id` until its next scheduling point.
     pub fn step(&mut self, id: usize) -> Step {
         self.steps += 1;
@@ -217,8 +303,34 @@ impl Runtime {
         assert!(matches!(g.slots[id].st, St::Runnable | St::Yielded), "step on a node with nothing to run");
         g.turn = id;
         self.cvs[id].notify_one();
+        let mut asleep_polls = 0;
+        // a granted node can only block on a lock if another node is parked in the middle of a job
+        let others_mid_job = self.detect_blocked && g.slots.iter().enumerate().any(|(j, s)| j != id && matches!(s.st, St::Yielded | St::Blocked));
         while g.turn != SCHED {
-            g = self.shared.sched_cv.wait(g).unwrap_or_else(|e| e.into_inner());
+            if !others_mid_job {
+                g = self.shared.sched_cv.wait(g).unwrap_or_else(|e| e.into_inner());
+                continue;
+            }
+            let (ng, to) = self.shared.sched_cv.wait_timeout(g, std::time::Duration::from_millis(5)).unwrap_or_else(|e| e.into_inner());
+            g = ng;
+            if g.turn == SCHED {
+                break;
+            }
+            if to.timed_out() && self.detect_blocked {
+                // the granted node has not come back: is it asleep in the kernel (futex wait on a
+                // lock of the code under test held by a parked node)? Two consecutive observations.
+                if thread_is_sleeping(g.slots[id].tid) {
+                    asleep_polls += 1;
+                } else {
+                    asleep_polls = 0;
+                }
+                if asleep_polls >= 2 {
+                    g.slots[id].st = St::Blocked;
+                    g.turn = SCHED;
+                    self.blocked_events += 1;
+                    return Step::Blocked;
+                }
+            }
         }
         match g.slots[id].st {
             St::Yielded => Step::Yielded(g.slots[id].last_yield),
@@ -237,6 +349,8 @@ impl Runtime {
             match self.step(id) {
                 Step::Yielded(_) => continue,
                 Step::Finished(r) => return r,
+                // cannot happen without detect_blocked; with it, nobody else is inside a job here
+                Step::Blocked => continue,
             }
         }
     }
@@ -263,6 +377,11 @@ impl Drop for Runtime {
 
 fn node_main(shared: Arc<Shared>, cv: Arc<Condvar>, id: usize) {
     seams::NODE.with(|n| n.set(id as i32));
+    {
+        let tid = unsafe { libc::syscall(libc::SYS_gettid) } as i32;
+        let mut g = shared.m.lock().unwrap_or_else(|e| e.into_inner());
+        g.slots[id].tid = tid;
+    }
     CTX.with(|c| *c.borrow_mut() = Some(NodeCtx { shared: shared.clone(), cv: cv.clone(), id }));
     loop {
         let job = {
@@ -287,7 +406,9 @@ fn node_main(shared: Arc<Shared>, cv: Arc<Condvar>, id: usize) {
         let mut g = shared.m.lock().unwrap_or_else(|e| e.into_inner());
         g.slots[id].result = Some(res);
         g.slots[id].st = St::Finished;
-        g.turn = SCHED;
+        if g.turn == id {
+            g.turn = SCHED;
+        }
         shared.sched_cv.notify_one();
     }
 }
